@@ -131,6 +131,9 @@ func c06Check(r *vs.JobResult, in []byte, tunnel bool) {
 		r.Execs++
 		if want != nil {
 			r.Nontrivial++
+			if len(r.Samples) < 3 && r.Execs%1013 == 7 {
+				r.Samples = append(r.Samples, fmt.Sprintf("detector(relay=%v tmux=%v, tunnel=%v) input %q -> fires mode %c id %q port %d", relay, tmux, tunnel, clipStr(string(in), 120), want.mode, want.id, want.port))
+			}
 		}
 		if d := sameTrigger(want, got); d != "" {
 			r.Violate(fmt.Sprintf("c06:diff:%v:%v:%s", relay, tmux, firstWords(d, 4)), fmt.Sprintf("detector(relay=%v tmux=%v) on %q tunnel=%v: %s", relay, tmux, clipStr(string(in), 200), tunnel, d), nil)
